@@ -102,6 +102,100 @@ fn variations(p: &Pos, rng: &mut Rng) -> Vec<(&'static str, Pos)> {
     out
 }
 
+
+/// The COMPLETE single-component neighbourhood of `p`: every square set to every piece code or
+/// emptied, the side to move flipped, each castling right toggled, every en-passant target set or
+/// cleared — as far as the result is a valid position that differs from `p` under the FIDE reading.
+/// All of these are different positions, from `p` and from one another.
+fn neighbourhood(p: &Pos) -> Vec<(String, Pos)> {
+    let mut out: Vec<(String, Pos)> = vec![];
+    let base = p.key_fide();
+    let mut push = |label: String, q: Pos, out: &mut Vec<(String, Pos)>| {
+        if q.validity().is_ok() && q.key_fide() != base {
+            out.push((label, q));
+        }
+    };
+    for s in 0..64usize {
+        for code in 0..=12u8 {
+            // piece codes: 0 empty, then pc(colour, kind)
+            let piece = if code == 0 { 0 } else { pc((code - 1) / 6, (code - 1) % 6 + 1) };
+            if piece == p.sq[s] || (piece != 0 && kind(piece) == K) || kind(p.sq[s]) == K {
+                continue;
+            }
+            let mut q = p.clone();
+            q.sq[s] = piece;
+            push(format!("{}={}", sq_name(s as u8), code), q, &mut out);
+        }
+    }
+    // a king relocated to every empty square
+    for col in [WHITE, BLACK] {
+        if let Some(k) = p.king_sq(col) {
+            for t in 0..64usize {
+                if p.sq[t] == 0 {
+                    let mut q = p.clone();
+                    q.sq[k as usize] = 0;
+                    q.sq[t] = pc(col, K);
+                    push(format!("king{}->{}", col, sq_name(t as u8)), q, &mut out);
+                }
+            }
+        }
+    }
+    if p.ep == NO_EP {
+        let mut q = p.clone();
+        q.stm ^= 1;
+        push("side".into(), q, &mut out);
+    }
+    for (bit, label) in [(WK, "K"), (WQ, "Q"), (BK, "k"), (BQ, "q")] {
+        let mut q = p.clone();
+        q.castle ^= bit;
+        push(format!("right {}", label), q, &mut out);
+    }
+    for t in 0..64u8 {
+        let mut q = p.clone();
+        q.ep = if p.ep == t { NO_EP } else { t };
+        // only targets with a legal capture are different positions under both conventions
+        if q.ep != NO_EP && !(q.validity().is_ok() && q.ep_capture_legal()) {
+            continue;
+        }
+        if q.ep == NO_EP && !p.ep_capture_legal() {
+            continue;
+        }
+        push(format!("ep {}", if q.ep == NO_EP { "-".to_string() } else { sq_name(q.ep) }), q, &mut out);
+    }
+    out
+}
+
+/// Neighbourhood probe: all members of the complete neighbourhood of one base position (and the
+/// base itself) must have pairwise different hashes — this finds any two features sharing a key
+/// (a pawn key doubling as an en-passant key, a castling key equal to the side key, ...), whatever
+/// the internal structure of the hash.
+fn neighbourhood_probe(z: &ZobristTable, p: &Pos, st: &mut Stats) {
+    let h0 = z.hash(&eng::board_from_pos(p));
+    let mut seen: HashMap<u64, (String, Pos)> = HashMap::new();
+    seen.insert(h0, ("base".into(), p.clone()));
+    let nb = neighbourhood(p);
+    st.bump("neighbourhood_probes");
+    st.add("neighbourhood_members_hashed", nb.len() as u64);
+    for (label, q) in nb {
+        if q.ep != NO_EP {
+            st.bump("neighbourhood_members_with_en_passant_target");
+        }
+        let h = z.hash(&eng::board_from_pos(&q));
+        if let Some((l0, q0)) = seen.get(&h) {
+            if q0.key_fide() != q.key_fide() {
+                st.violation(
+                    format!("C11:neighbourhood:{}:{}:{}", p.to_fen(), l0, label),
+                    format!("the different positions {} and {} (one-component changes '{}' and '{}' of {}) hash equal ({:#x})", q0.to_fen(), q.to_fen(), l0, label, p.to_fen(), h),
+                    J::obj(vec![("kind", J::s("neighbourhood")), ("base", J::s(p.to_fen())), ("a", J::s(q0.to_fen())), ("b", J::s(q.to_fen()))]),
+                );
+                return;
+            }
+        } else {
+            seen.insert(h, (label, q));
+        }
+    }
+}
+
 fn play_inplace(start: &Pos, moves: &[Mv], mg: &MoveGenerator) -> Option<Board> {
     let mut b = eng::board_from_pos(start);
     for m in moves {
@@ -157,13 +251,13 @@ fn transposition(start: &Pos, rng: &mut Rng) -> Option<(Vec<Mv>, Vec<Mv>, Pos)> 
 pub fn run(ctx: &Ctx) -> i32 {
     let spec = Spec {
         level: "exploration",
-        rule: "cases are (key set, position) pairs: for every key set drawn (ZobristTable::new(), fresh random keys) and every generated position the hash of the board played in place must equal the hash of the board rebuilt from FEN with different move counters and the hash of the board reached through a transposed move order; every valid single-component variation (remove/recolour/retype/relocate/add one piece, flip side, toggle each castling right, ep none/file/other file with a legal capture) must hash differently; no two distinct positions of the run may collide under one key set. Distinct by (key set index, position); non-trivial = all",
+        rule: "cases are (key set, position) pairs: for every key set drawn (ZobristTable::new(), fresh random keys) and every generated position the hash of the board played in place must equal the hash of the board rebuilt from FEN with different move counters and the hash of the board reached through a transposed move order; every valid single-component variation (remove/recolour/retype/relocate/add one piece, flip side, toggle each castling right, ep none/file/other file with a legal capture) must hash differently; no two distinct positions of the run may collide under one key set; neighbourhood probe: for three base positions per key set the COMPLETE one-component neighbourhood (every square set to every piece or emptied, kings relocated, side, each right, every en-passant target with a legal capture) is hashed and all members must differ pairwise, which exposes any two features sharing a key. Distinct by (key set index, position); non-trivial = all",
         assumptions: vec![
             "64-bit random keys: a spurious equality between two different positions has probability < 1e-12 per run and is accepted".into(),
             "key sets not drawn in this run are not covered; each run draws fresh ones from the engine's own generator".into(),
             "rules oracle validated by perft at start".into(),
         ],
-        required: if ctx.replay.is_some() { vec![] } else { vec!["same_inplace_vs_fen", "same_transposition", "diff_remove_piece", "diff_exchange_two_squares", "diff_flip_side_to_move", "diff_toggle_white_kingside", "diff_toggle_black_queenside", "diff_ep_none_vs_file", "diff_ep_file_vs_other_file", "key_sets"] },
+        required: if ctx.replay.is_some() { vec![] } else { vec!["same_inplace_vs_fen", "same_transposition", "diff_remove_piece", "diff_exchange_two_squares", "diff_flip_side_to_move", "diff_toggle_white_kingside", "diff_toggle_black_queenside", "diff_ep_none_vs_file", "diff_ep_file_vs_other_file", "key_sets", "neighbourhood_probes", "neighbourhood_members_with_en_passant_target"] },
         exhaustive: false,
         extra: vec![],
     };
@@ -183,6 +277,32 @@ pub fn run(ctx: &Ctx) -> i32 {
             let ksid = (w as u64) << 32 | ks;
             let mut seen: HashMap<u64, PosKey> = HashMap::new();
             let mut n = 0;
+            if let Some(c) = ctx.replay.as_ref().and_then(|r| r.get("case")).filter(|c| c.str_of("kind") == "neighbourhood") {
+                // replay of a neighbourhood collision: the two positions under fresh key sets
+                if let (Ok(a), Ok(b)) = (Pos::from_fen(&c.str_of("a")), Pos::from_fen(&c.str_of("b"))) {
+                    st.case(hash64(&(ksid, a.key())), true);
+                    let (ha, hb) = (z.hash(&eng::board_from_pos(&a)), z.hash(&eng::board_from_pos(&b)));
+                    if ha == hb && a.key_fide() != b.key_fide() {
+                        st.violation(format!("C11:neighbourhood:{}", c.str_of("base")), format!("the different positions {} and {} hash equal ({:#x})", a.to_fen(), b.to_fen(), ha), c.clone());
+                    }
+                }
+                continue;
+            }
+            if ctx.replay.is_none() {
+                // bases with pawns on the en-passant ranks (either side to move), castling rights and a mixed bag
+                for k in 0..3 {
+                    let mut b = match k {
+                        0 => gen::g_ep(&mut rng),
+                        1 => gen::g_castle(&mut rng),
+                        _ => gen::g_game_pos(&mut rng),
+                    };
+                    b.ep = NO_EP;
+                    if b.validity().is_ok() {
+                        st.case(hash64(&(ksid, b.key(), 0x4eu8)), true);
+                        neighbourhood_probe(&z, &b, &mut st);
+                    }
+                }
+            }
             while n < positions_per_set {
                 // a game prefix played in place
                 let (start, plies) = if let Some(r) = ctx.replay.as_ref() {
